@@ -44,6 +44,17 @@ NOLEN = {"int", "obj", "objnh", "ident", "coords", "trackpos"}    # flavours who
 RESERVED = ["x", "y", "z", "t", "timestamp", "idx"]
 CAP = 2500          # largest number of candidate sequences the oracle enumerates
 TOL = 1e-9
+SENTINEL = 1e300    # best_val's start value in HMM.estimate
+SPECIAL = {"inf": float("inf"), "-inf": float("-inf"), "nan": float("nan")}
+
+
+def num(v):
+    """table entries are JSON-safe: the non-finite doubles are written "inf" / "-inf" / "nan" in a case"""
+    return SPECIAL[v] if isinstance(v, str) else v
+
+
+def nums(t):
+    return [nums(x) for x in t] if isinstance(t, list) else num(t)
 
 
 class St:
@@ -481,7 +492,7 @@ class Runner:
             return spool[lab]
 
         def functions(m):
-            PT, QT = m["P"], m["Q"]
+            PT, QT = nums(m["P"]), nums(m["Q"])
             tabs = s_tables(m)
             dS, dQ, dP = dep_of(m, "S"), dep_of(m, "Q"), dep_of(m, "P")
             xS, xQ, xP = set(exc_of(m, "S")), set(exc_of(m, "Q")), set(exc_of(m, "P"))
@@ -644,8 +655,8 @@ def request(case, fbits, tok_list):
             return ";".join(("u" if c in UNSIZED else "e" if not row else ",".join(map(str, row)))
                             for row, c in zip(tab, conts_of(m, N)))
         S = stab(m["S"])
-        Pf = tok_list(fbits(v) for r in m["P"] for c in r for v in c)
-        Qf = tok_list(fbits(v) for r in m["Q"] for c in r for v in c)
+        Pf = tok_list(fbits(num(v)) for r in m["P"] for c in r for v in c)
+        Qf = tok_list(fbits(num(v)) for r in m["Q"] for c in r for v in c)
         if m.get("dep") or m.get("SV") or m.get("exc"):
             # user functions that read the track / that raise: <depS>!<depQ>!<depP>!<exc>!<further S tables>
             ds = []
@@ -727,7 +738,22 @@ def cost_of(v, log):
 def close(a, b):
     if a == b:
         return True
+    if a != a or b != b:
+        return a != a and b != b          # NaN only equals NaN
+    if math.isinf(a) or math.isinf(b):
+        return False                      # an infinity only equals itself (1e300 is not +inf)
     return abs(a - b) <= TOL * max(1.0, abs(a), abs(b))
+
+
+def in_domain(CP, CQ, opt):
+    """the statement speaks about likelihoods: every cost is a number above -inf, and - the documented limit of the
+    implementation - the optimum is below the 1e300 start value of the scan; costs of +inf (IMPOSSIBLE transitions /
+    emissions: the logarithm of a zero probability) are inside as long as some candidate sequence is possible.
+    Outside (Props T16, T17, T19 say what the code does there): NaN, cost -inf, no possible sequence / optimum >= 1e300."""
+    flat = [v for row in CP for v in row] + [v for blk in CQ for row in blk for v in row]
+    if any(v != v or v == float("-inf") for v in flat):
+        return False
+    return opt is not None and opt == opt and opt < SENTINEL
 
 
 def best_cost(n, CP, CQ):
@@ -784,8 +810,8 @@ def eff_model(case, ctx, res):
         return None
     tabs = s_tables(mS)
     SL = [tabs[vS[k] % len(tabs)][k] for k in range(N)]
-    PT = [[[mP["P"][k][a][(c + vP[k]) % YD] for c in range(YD)] for a in range(L)] for k in range(N)]
-    QT = [[[mQ["Q"][k][a][(b + vQ[k]) % L] for b in range(L)] for a in range(L)] for k in range(N - 1)]
+    PT = [[[num(mP["P"][k][a][(c + vP[k]) % YD]) for c in range(YD)] for a in range(L)] for k in range(N)]
+    QT = [[[num(mQ["Q"][k][a][(b + vQ[k]) % L]) for b in range(L)] for a in range(L)] for k in range(N - 1)]
     return SL, PT, QT
 
 
@@ -860,6 +886,8 @@ def check_est(case, ctx, res, i):
             msgs.append("the tables are not likelihoods")
             continue
         opt = best_cost(n, CP, CQ)
+        if not in_domain(CP, CQ, opt):
+            return None
         tot = CP[0][idx[0]]
         for k in range(1, N):
             tot = (CQ[k - 1][idx[k - 1]][idx[k]] + tot) + CP[k][idx[k]]
@@ -896,6 +924,19 @@ def prefix_costs_ok(case, ctx, res):
     return False
 
 
+def est_in_domain(case, ctx, res):
+    """`in_domain` for the tables of one estimate call (flag of the context; called when in_statement holds)"""
+    N, R, YD = case["N"], case["R"], case["YD"]
+    SL, PT, QT = eff_model(case, ctx, res)
+    codes = [code_of_pre(res["pre"][k], ctx["step"].get("mode", 0), R, YD) for k in range(N)]
+    try:
+        CP = [[cost_of(PT[k][lab][codes[k]], ctx["flag"]) for lab in SL[k]] for k in range(N)]
+        CQ = [[[cost_of(QT[k][a][b], ctx["flag"]) for b in SL[k + 1]] for a in SL[k]] for k in range(N - 1)]
+    except ValueError:
+        return False
+    return in_domain(CP, CQ, best_cost([len(r) for r in SL], CP, CQ))
+
+
 def tie_ok(case, ctx, res, i):
     """a result that differs from the model's is accepted iff the call is inside the statement, the result is optimal
     and the recorded costs are the prefix costs of the recorded sequence"""
@@ -906,6 +947,8 @@ def tie_ok(case, ctx, res, i):
         ctx = dict(ctx, flag=True)
     if not in_statement(case, ctx, res):
         return False
+    if not est_in_domain(case, ctx, res):
+        return False                      # NaN / cost -inf / no sequence below the sentinel: the model is the only reference
     if check_est(case, ctx, res, i) is not None:
         return False
     try:
@@ -1010,7 +1053,12 @@ def compare(case, io, mo):
 # generator
 # --------------------------------------------------------------------------------------------------
 LIK_SETS = {"lik3": [0, 0.5, 1], "lik8": [i / 8.0 for i in range(9)], "likw": [0, 0.25, 0.5, 1, 2, 4], "lik01": [0, 1]}
-LOG_SETS = {"logint": [0, -1, -2, -3], "logdy": [-i / 4.0 for i in range(13)], "logpm": [-2, -1, 0, 1, 2]}
+LOG_SETS = {"logint": [0, -1, -2, -3], "logdy": [-i / 4.0 for i in range(13)], "logpm": [-2, -1, 0, 1, 2],
+            # zero-probability transitions / emissions supplied as logarithms (cost +inf): the normal case in map-matching
+            "loginf": [0, -1, -2, -0.5, "-inf", "-inf", "-inf"],
+            # mostly impossible (often no possible sequence: sentinel cells), costs that reach 1e300, NaN, cost -inf
+            "logzero": [0, -1, "-inf", "-inf", "-inf", "-inf"], "loghuge": [0, -1, -4e299, -6e299, -1e300],
+            "lognan": [0, -1, -2, -1, 0, "nan", "inf", "-inf"]}
 
 
 def gen_model(rng, N, L, YD, kind, maxseq, sflav="int"):
@@ -1097,7 +1145,8 @@ def gen_session(rng, big=False):
         case["boolform"] = "int" if r < 0.07 else "npbool"
     models = []
     for _ in range(rng.choice([1, 2, 2, 3])):
-        kind = rng.choice(["lik3", "lik8", "lik8", "likw", "likw", "likw", "lik01", "logint", "logdy", "logpm"])
+        kind = rng.choice(["lik3", "lik8", "lik8", "likw", "likw", "likw", "lik01", "logint", "logdy", "logpm",
+                           "loginf", "loginf", "loginf", "logzero", "loghuge", "lognan"])
         m = gen_model(rng, N, L, YD, kind, 1500 if not big else CAP, sflav)
         models.append(m)
         if m["kind"] == "lik" and rng.random() < 0.2:
@@ -1246,6 +1295,8 @@ def describe(case):
             "share": "+".join(sorted(set(m.get("share", "fresh") for m in case["models"]))),
             "xyz obs": any(n in ("x", "y", "z") for s in case["steps"] if s["op"] == "est" for n in s["obs"]),
             "raises": "".join(w for w in ("S", "Q", "P") if any(exc_of(m, w) for m in case["models"])) or "-",
+            "non-finite": "+".join(sorted(set(v for m in case["models"] for tab in (m["P"], m["Q"]) for r in tab for c in r for v in c
+                                              if isinstance(v, str)))) or "-",
             "reads track": "".join(w for w in ("S", "Q", "P") if any(dep_of(m, w) for m in case["models"])) or "-"}
 
 
